@@ -7,7 +7,7 @@ RULE = ('cases are (table, transformation): tables exhaustive n*m <= 12 (quick) 
         'families up to 7x7 / 10x10; transformations: two seed-derived row+column permutations (labels move with the '
         'cells), transposition (built with Definition.transposed AND independently with zip(*rows)), a copy of every '
         'row in turn, a copy of every column in turn, an added all-true column. Purely metamorphic oracle, no '
-        'reference model: as statements about label sets the concept set, cover pairs, join and meet of all pairs '
+        'reference model: as statements about label sets the concept set, cover pairs, join and meet of all pairs (lattice.join/meet and the binary x|y, x.join(y), x&y, x.meet(y) in both operand orders) '
         '(<= 30 concepts, 200 seed-derived pairs above) and relations() (symmetric kinds as unordered pairs) are equal '
         'under permutation; under transposition concepts are swapped pairs, covers reversed, join and meet exchanged; '
         'duplicated row => same family of intents, duplicated or universal column => same family of extents, same '
@@ -52,6 +52,14 @@ def observe_context(ctx, q, context, tag):
         idx = [(rnd.randrange(k), rnd.randrange(k)) for _ in range(200)]
     obs['join'] = {(fs((key[id(members[i])], key[id(members[j])])), key[id(lat.join([members[i], members[j]]))]) for i, j in idx}
     obs['meet'] = {(fs((key[id(members[i])], key[id(members[j])])), key[id(lat.meet([members[i], members[j]]))]) for i, j in idx}
+    # the binary forms, both operand orders (receiver classes differ: Infimum / Atom / Concept / Supremum)
+    for i, j in idx:
+        for a, b in ((members[i], members[j]), (members[j], members[i])):
+            pair = fs((key[id(a)], key[id(b)]))
+            obs['join'].add((pair, key[id(ctx.call(tag + 'x|y', q, lambda: a | b))]))
+            obs['join'].add((pair, key[id(ctx.call(tag + 'x.join(y)', q, a.join, b))]))
+            obs['meet'].add((pair, key[id(ctx.call(tag + 'x&y', q, lambda: a & b))]))
+            obs['meet'].add((pair, key[id(ctx.call(tag + 'x.meet(y)', q, a.meet, b))]))
     rel = set()
     for r in ctx.call(tag + 'relations', q, context.relations):
         rel.add((r.kind, fs((r.left, r.right))) if r.kind in SYMMETRIC else (r.kind, r.left, r.right))
